@@ -39,7 +39,7 @@ import tempfile
 from harness import common, rxsuite
 from harness.common import Model, s2l
 
-FACTS = ("tables", "parser", "c02", "c03")
+FACTS = ("tables", "parser", "c02", "c03", "c06")
 RUNNERS = ["RX"]
 
 RULE = ("per format (properties, dtd, ini, inc, ftl, android strings.xml, po): seeded (reference records, "
